@@ -22,6 +22,98 @@ MU_E = 3.986004418e14          # only used by the generators to make plausible c
 TWO_PI = 2 * math.pi
 
 
+# ---------------------------------------------------------------- extraction: formulas translated from the source on every run
+
+def src(*parts):
+    return os.path.join(core.REPO, "beyond", *parts)
+
+
+class Tr19(py2lean.Tr):
+    """py2lean.Tr with `a == b` rendered as `a <= b and b <= a` (decidable on Float and on R, equal to `=` on R)"""
+
+    def expr(self, e):
+        if isinstance(e, ast.Compare) and len(e.ops) == 1 and isinstance(e.ops[0], ast.Eq):
+            a, b = self.expr(e.left), self.expr(e.comparators[0])
+            return f"(({a} ≤ {b}) ∧ ({b} ≤ {a}))"
+        return super().expr(e)
+
+
+def _ret_to_assign(stmts):
+    out = []
+    for s in stmts:
+        if isinstance(s, ast.Return):
+            out.append(ast.Assign(targets=[ast.Name(id="ret__", ctx=ast.Store())], value=s.value))
+        elif isinstance(s, ast.If):
+            out.append(ast.If(test=s.test, body=_ret_to_assign(s.body), orelse=_ret_to_assign(s.orelse)))
+        elif isinstance(s, ast.Expr) and isinstance(s.value, ast.Constant):
+            continue
+        else:
+            out.append(s)
+    return out
+
+
+def fn_def(path, qualname, inputs, lean_name, consts=None, funcs=None, pick_return=None, extra_inputs=()):
+    """whole function body -> `def lean_name (inputs : R) : R := let ...; <returned expression>`.
+    pick_return=k: the function is an if-chain on untranslatable tests (mode selection); take the k-th `return`
+    in source order together with the straight-line prelude."""
+    tree = ast.parse(open(path).read())
+    fn = py2lean.find_function(tree, qualname)
+    body = fn.body
+    if pick_return is not None:
+        rets = [n for n in ast.walk(fn) if isinstance(n, ast.Return)]
+        rets.sort(key=lambda n: (n.lineno, n.col_offset))
+        body = [s for s in fn.body if isinstance(s, ast.Assign)] + [rets[pick_return]]
+    stmts = _ret_to_assign(body)
+    tr = Tr19(consts=consts, funcs=funcs)
+    wanted = py2lean.needed_names(stmts, ["ret__"], inputs) - set(inputs)
+    text = tr.block(stmts, "ret__", wanted)
+    args = " ".join(py2lean.lname(i) for i in list(inputs) + list(extra_inputs))
+    return f"def {lean_name} ({args} : R) : R :=\n{py2lean.indent(text)}\n"
+
+
+def extract(ctx):
+    ch = []
+    L = src("utils", "lambert.py")
+    lf = {"_C": "lamC", "_S": "lamS", "_y": "lamY", "duration.total_seconds": "id duration"}
+    body = "\n".join([
+        fn_def(L, "_C", ["z"], "lamC"),
+        fn_def(L, "_S", ["z"], "lamS"),
+        fn_def(L, "_y", ["nr0", "nr1", "A", "z"], "lamY", funcs=lf),
+        fn_def(L, "_F", ["nr0", "nr1", "A", "z", "duration", "mu"], "lamF", funcs=lf),
+        fn_def(L, "_dF", ["nr0", "nr1", "A", "z"], "lamDF", funcs=lf),
+        py2lean.translate_slice(L, "_lambert", ["nr0", "nr1", "dtheta"], ["A"], "lamA"),
+        py2lean.translate_slice(L, "_lambert", ["nr0", "nr1", "A", "z", "mu"], ["f", "g", "gdot"], "lamFG", funcs=lf),
+    ])
+    ch += py2lean.instantiate(core.LEAN, "LambertFn", body, "beyond/utils/lambert.py")
+    E = {"Earth.mu": "mu", "Earth.r": "re", "Earth.J2": "j2"}
+    P = src("utils", "leo.py")
+    body = "\n".join([
+        fn_def(P, "sso", ["a", "e"], "ssoI", consts=E, pick_return=0, extra_inputs=["mu", "re", "j2"]),
+        fn_def(P, "sso", ["e", "i"], "ssoA", consts=E, pick_return=1, extra_inputs=["mu", "re", "j2"]),
+        fn_def(P, "sso", ["a", "i"], "ssoE", consts=E, pick_return=2, extra_inputs=["mu", "re", "j2"]),
+        py2lean.translate_slice(src("propagators", "j2.py"), "J2.propagate", ["n", "re", "a", "e", "i", "j2"], ["dΩ"], "j2NodeRate", consts={"Earth.J2": "j2"}),
+        fn_def(src("orbits", "statevector.py"), "Infos.n", [], "meanMotion", consts={"self.mu": "mu", "self.kep.a": "a"}, extra_inputs=["mu", "a"]),
+    ])
+    ch += py2lean.instantiate(core.LEAN, "LeoFn", body, "beyond/utils/leo.py, beyond/propagators/j2.py, beyond/orbits/statevector.py (Infos.n)")
+    T = src("utils", "ltan.py")
+    body = "\n".join([
+        fn_def(T, "raan2ltan", ["raan", "sun_raan"], "raan2ltan"),
+        fn_def(T, "ltan2raan", ["ltan", "sun_raan"], "ltan2raan"),
+    ])
+    ch += py2lean.instantiate(core.LEAN, "LtanFn", body, "beyond/utils/ltan.py")
+    W = src("utils", "constellation.py")
+    cs = {"self.planes": "planes", "self.raan0": "raan0", "self.per_plane": "per_plane", "self.spacing": "spacing"}
+    body = "\n".join([
+        fn_def(W, "WalkerStar.raan", ["planes", "raan0", "i_plane"], "starRaan", consts=cs),
+        fn_def(W, "WalkerStar.nu", ["planes", "raan0", "per_plane", "spacing", "i_plane", "i_sat"], "starNu", consts=cs, funcs={"self.raan": "starRaan planes raan0"}),
+        fn_def(W, "WalkerDelta.raan", ["planes", "raan0", "i_plane"], "deltaRaan", consts=cs),
+        fn_def(W, "WalkerDelta.nu", ["planes", "raan0", "per_plane", "spacing", "i_plane", "i_sat"], "deltaNu", consts=cs, funcs={"self.raan": "deltaRaan planes raan0"}),
+    ])
+    ch += py2lean.instantiate(core.LEAN, "WalkerFn", body, "beyond/utils/constellation.py")
+    ch += instantiate.main()
+    return ch
+
+
 # ---------------------------------------------------------------- independent two-body machinery (oracle side)
 
 def stumpff(z):
@@ -352,6 +444,175 @@ def check_bplane(out, rng):
     vinf = math.sqrt(mu / abs(a))
     if not np.linalg.norm(np.cross(B, S * vinf) - h) < 1e-8 * np.linalg.norm(h) * e / (e - 1):
         out.fail("bplane-B-moment", "B x v_inf differs from the angular momentum", inp, observed=list(map(float, np.cross(B, S * vinf))), expected=list(map(float, h)))
+
+
+# ---------------------------------------------------------------- correspondence: compiled Lean model vs real code
+
+def _floats(rep):
+    return [b2f(t) for t in rep.split()]
+
+
+def _cmp(out, family, what, inp, real, model, rtol=1e-9, atol=0.0, scales=None, exact=False):
+    if len(real) != len(model):
+        out.fail(family, what + " (length)", inp, observed=list(real), expected=list(model))
+        return False
+    for k, (a, b) in enumerate(zip(real, model)):
+        a = float(a)
+        if exact:
+            ok = f2b(a) == f2b(b)
+        else:
+            sc = scales[k] if scales else max(abs(a), abs(b))
+            ok = core.close(a, b, rtol=rtol, atol=atol, scale=sc)
+        if not ok:
+            out.fail(family, f"{what} (component {k})", inp, observed=[float(x) for x in real], expected=list(model))
+            return False
+    return True
+
+
+def correspondence(ctx):
+    import numpy as np
+    from beyond.utils import lambert as L
+    from beyond.utils.leo import sso
+    from beyond.utils import ltan as LT
+    from beyond.utils.constellation import WalkerStar, WalkerDelta
+    from beyond.utils.beta import beta
+    from beyond.utils.interplanetary import bplane
+    from beyond.constants import Earth
+    from beyond.dates import Date, timedelta
+    from beyond.orbits import Orbit
+    from beyond.propagators.j2 import J2
+    from beyond.frames.frames import get_frame
+    out = Outcome()
+    rng = ctx.rng
+    reqs, post = [], []
+    mu = get_frame("EME2000").center.body.mu
+
+    def add(req, fn):
+        reqs.append(req)
+        post.append(fn)
+
+    # 1. scalar Lambert functions
+    for _ in range(ctx.n(400, 20000)):
+        nr0, nr1 = rng.uniform(6.6e6, 5e7), rng.uniform(6.6e6, 5e7)
+        dth = rng.uniform(0.05, TWO_PI - 0.05)
+        A = math.sin(dth) * math.sqrt(nr0 * nr1 / (1 - math.cos(dth)))
+        z = rng.choice([0.0, rng.uniform(0.01, 39.0), rng.uniform(0.01, 39.0), -rng.uniform(0.01, 30.0), rng.uniform(1e-6, 0.01)])
+        dur = round(rng.uniform(100, 1e5), 6)
+        real = [L._C(z), L._S(z), L._y(nr0, nr1, A, z), L._F(nr0, nr1, A, z, timedelta(seconds=dur), mu), L._dF(nr0, nr1, A, z)]
+        inp = {"nr0": nr0, "nr1": nr1, "A": A, "z": z, "duration": dur, "mu": mu}
+        out.count(key=("lamfn", nr0, nr1, dth, z), kind="lambert-functions", zsign="0" if z == 0 else ("+" if z > 0 else "-"),
+                  finite=all(math.isfinite(float(x)) for x in real))
+        sc = [None, None, nr0 + nr1, math.sqrt(mu) * dur + (nr0 + nr1) ** 1.5, None]
+        add(" ".join(["lamfn"] + [f2b(x) for x in (nr0, nr1, A, z, dur, mu)]),
+            lambda rep, real=real, inp=inp, sc=sc: _cmp(out, "model-lambert-functions", "_C/_S/_y/_F/_dF differ from the translated formulas", inp, real, _floats(rep)[:5], rtol=1e-9, scales=sc))
+    # 2. full solver
+    for k in range(ctx.n(150, 5000)):
+        c = gen_lambert(rng, small=(k % 12 == 11))
+        r0, _ = kep2cart(c["a"], c["e"], c["i"], c["raan"], c["argp"], c["nu0"], mu)
+        r1, _ = kep2cart(c["a"], c["e"], c["i"], c["raan"], c["argp"], c["nu0"] + c["dnu"], mu)
+        pro = rng.random() < 0.8
+        if rng.random() < 0.5:
+            pro = c["i"] < math.pi / 2
+        v0, v1 = L._lambert(np.array(r0), np.array(r1), timedelta(seconds=c["tof"]), mu, pro)
+        real = [float(x) for x in list(v0) + list(v1)]
+        fin = all(math.isfinite(x) for x in real)
+        spd = max(abs(x) for x in real) if fin else 1.0
+        inp = dict(c, prograde=pro)
+        out.count(key=("lambert", c["a"], c["e"], c["nu0"], c["dnu"], pro), kind="lambert-solve", prograde=pro, way="short" if c["dnu"] < math.pi else "long", finite=fin)
+
+        def chk(rep, real=real, inp=inp, spd=spd, fin=fin):
+            if rep in ("fuel", "bad-op"):
+                out.fail("model-lambert-solve", "model rejected the request: " + rep, inp, observed=real, expected=rep)
+                return
+            m = _floats(rep)
+            if fin and m[7] != 1.0:
+                out.fail("model-lambert-solve", "model Newton loop did not leave through `break` although the code returned finite velocities", inp, observed=real, expected=m)
+                return
+            _cmp(out, "model-lambert-solve", "_lambert velocities differ from the model", inp, real, m[:6], rtol=1e-7, scales=[spd] * 6)
+            out.sample({"request": "lambert", "input": {k: inp[k] for k in ("a", "e", "dnu", "tof", "prograde")}, "impl": real, "model": m}, limit=2)
+        add(" ".join(["lambert", "1" if pro else "0"] + [f2b(x) for x in list(r0) + list(r1) + [c["tof"], mu]]), chk)
+    # 3. sun-synchronous solver and J2 node rate
+    for _ in range(ctx.n(300, 10000)):
+        a, e = gen_sso(rng) if rng.random() < 0.8 else (rng.uniform(6.5e6, 3e7), rng.uniform(0, 0.7))
+        i = rng.choice([rng.uniform(math.pi / 2, math.pi), rng.uniform(0, math.pi)])
+        O0 = rng.uniform(0.5, 5.5)
+        T = 86400.0
+        orb = Orbit([a, e, i, O0, 1.0, 2.0], Date(2022, 1, 1), "keplerian_mean", "EME2000", J2())
+        new = orb.propagate(timedelta(seconds=T)).copy(form="keplerian")
+        rate = ((float(new.raan) - O0 + math.pi) % TWO_PI - math.pi) / T
+        real = [sso(a=a, e=e), sso(e=e, i=i), sso(a=a, i=i), rate]
+        inp = {"a": a, "e": e, "i": i}
+        out.count(key=("sso", a, e, i), kind="sso", finite=sum(1 for x in real if math.isfinite(float(x))))
+        add(" ".join(["sso"] + [f2b(x) for x in (a, e, i, Earth.mu, Earth.r, Earth.J2)]),
+            lambda rep, real=real, inp=inp: _cmp(out, "model-sso", "sso / J2 node rate differ from the translated formulas", inp, real, _floats(rep), rtol=1e-9,
+                                                  scales=[None, None, 1.0, max(abs(real[3]), 1e-7) * 100]))
+    # 4. LTAN <-> RAAN
+    for _ in range(ctx.n(300, 10000)):
+        date = gen_date(rng)
+        ty = rng.choice(["mean", "true"])
+        sun = float(LT._mean_sun_raan(date) if ty == "mean" else LT._true_sun_raan(date))
+        raan = rng.uniform(-TWO_PI, 2 * TWO_PI)
+        ltan = rng.uniform(-86400, 2 * 86400)
+        real = [LT.raan2ltan(date, raan, ty), LT.ltan2raan(date, ltan, ty)]
+        inp = {"date": str(date), "type": ty, "raan": raan, "ltan": ltan, "sun_raan": sun}
+        out.count(key=("ltan", str(date), raan, ltan), kind="ltan-" + ty)
+
+        def chk(rep, real=real, inp=inp, sun=sun):
+            m = _floats(rep)
+            ok = circ(float(real[0]), m[0], 86400) < 1e-9 * 86400 * (1 + abs(sun)) and circ(float(real[1]), m[1], TWO_PI) < 1e-9 * (1 + abs(sun))
+            if not ok:
+                out.fail("model-ltan", "raan2ltan / ltan2raan differ from the translated formulas", inp, observed=[float(x) for x in real], expected=m)
+        add(" ".join(["ltan"] + [f2b(x) for x in (raan, ltan, sun)]), chk)
+    # 5. Walker fleets: exact
+    for _ in range(ctx.n(150, 4000)):
+        t, p, f = gen_walker(rng)
+        if rng.random() < 0.2:
+            t += rng.randint(1, p)     # planes not dividing the total: per_plane is the floor
+        raan0 = rng.choice([0.0, rng.uniform(0, TWO_PI)])
+        for cls in (WalkerStar, WalkerDelta):
+            real = [float(x) for pair in cls(t, p, f, raan0).iter_fleet() for x in pair]
+            inp = {"pattern": cls.__name__, "t": t, "p": p, "f": f, "raan0": raan0}
+            out.count(key=(cls.__name__, t, p, f, raan0), kind="walker-" + cls.__name__, divides=t % p == 0)
+            add(" ".join(["walker", "1" if cls is WalkerDelta else "0", str(t), str(p), str(f), f2b(raan0)]),
+                lambda rep, real=real, inp=inp: _cmp(out, "model-walker", "iter_fleet differs from the model (bit-exact comparison)", inp, real, _floats(rep), exact=True))
+    # 6. beta
+    for _ in range(ctx.n(200, 10000)):
+        date = gen_date(rng)
+        el = lambda: [rng.uniform(6.7e6, 4.3e7), rng.uniform(0, 0.6), rng.uniform(0, math.pi), rng.uniform(0, TWO_PI), rng.uniform(0, TWO_PI), rng.uniform(0, TWO_PI)]
+        orb = Orbit(el(), date, "keplerian", "EME2000", "Kepler")
+        ref = Orbit(el(), date, "keplerian", "EME2000", "Kepler")
+        cart = [float(x) for x in orb.copy(form="cartesian")]
+        pos = [float(x) for x in ref.copy(form="cartesian")[:3]]
+        real = [beta(orb, ref)]
+        inp = {"orbit": cart, "ref_pos": pos}
+        out.count(key=("beta", tuple(cart)), kind="beta")
+        add(" ".join(["beta"] + [f2b(x) for x in cart + pos]),
+            lambda rep, real=real, inp=inp: _cmp(out, "model-beta", "beta differs from the model", inp, real, _floats(rep), rtol=1e-9, atol=1e-8))
+    # 7. B-plane
+    for _ in range(ctx.n(200, 10000)):
+        e = rng.choice([rng.uniform(1.05, 2.0), rng.uniform(2.0, 10.0)])
+        a = -rng.uniform(5e6, 5e8)
+        nu = rng.uniform(-0.97, 0.97) * math.acos(-1 / e)
+        r, v = kep2cart(a, e, rng.uniform(0.05, math.pi - 0.05), rng.uniform(0, TWO_PI), rng.uniform(0, TWO_PI), nu, mu)
+        orb = Orbit(list(r) + list(v), Date(2023, 5, 6), "cartesian", "EME2000", None)
+        bp = bplane(orb)
+        aabs = abs(float(orb.infos.kep.a))
+        real = [float(x) for x in list(np.asarray(bp.B)) + [bp.theta] + list(np.asarray(bp.S)) + list(np.asarray(bp.T)) + list(np.asarray(bp.R)) + list(np.asarray(bp.e)) + list(np.asarray(bp.h))]
+        bn = float(np.linalg.norm(np.asarray(bp.B)))
+        hn = float(np.linalg.norm(np.asarray(bp.h)))
+        amp = e / (e - 1)
+        sc = [bn * amp] * 3 + [1e3 * amp] + [amp] * 9 + [e * amp] * 3 + [hn] * 3
+        inp = {"a": a, "e": e, "nu": nu, "state": [float(x) for x in list(r) + list(v)], "aAbs": aabs}
+        out.count(key=("bplane", a, e, nu), kind="bplane", e_range="<2" if e < 2 else ">=2")
+        add(" ".join(["bplane", f2b(mu), f2b(aabs)] + [f2b(x) for x in list(r) + list(v)]),
+            lambda rep, real=real, inp=inp, sc=sc: _cmp(out, "model-bplane", "bplane differs from the model", inp, real, _floats(rep), rtol=1e-9, scales=sc))
+    replies = core.Driver().run(reqs)
+    for req, fn, rep in zip(reqs, post, replies):
+        if rep == "bad-op":
+            out.fail("model-bad-op", "driver rejected a request", req[:100], observed=None, expected=rep)
+            continue
+        fn(rep)
+    return out
 
 
 def oracle(ctx, widened):
